@@ -278,6 +278,56 @@ pub fn roundtrip(addr: SocketAddr, request: &[u8], head_only: bool) -> Option<Ra
     rr.read_response(head_only)
 }
 
+/// One request over HTTP/2 (prior knowledge, its own connection).  `sized`: the body is sent
+/// with a content-length; otherwise as DATA frames delimited by END_STREAM alone.
+pub fn h2_roundtrip(
+    addr: SocketAddr,
+    method: &str,
+    target: &str,
+    headers: &[(&str, &str)],
+    body: &[u8],
+    sized: bool,
+) -> Option<RawResponse> {
+    use http_body_util::BodyExt;
+    use hyper_util::rt::{TokioExecutor, TokioIo};
+    type Bx = http_body_util::combinators::BoxBody<bytes::Bytes, std::convert::Infallible>;
+    let rt = tokio::runtime::Builder::new_current_thread().enable_all().build().ok()?;
+    rt.block_on(async {
+        let tcp = tokio::net::TcpStream::connect(addr).await.ok()?;
+        let (mut sender, conn) =
+            hyper::client::conn::http2::handshake::<_, _, Bx>(TokioExecutor::new(), TokioIo::new(tcp)).await.ok()?;
+        let conn_task = tokio::spawn(conn);
+        let b: Bx = if body.is_empty() {
+            BodyExt::boxed(http_body_util::Empty::<bytes::Bytes>::new())
+        } else if sized {
+            BodyExt::boxed(http_body_util::Full::new(bytes::Bytes::copy_from_slice(body)))
+        } else {
+            let frames: Vec<Result<hyper::body::Frame<bytes::Bytes>, std::convert::Infallible>> =
+                body.chunks(1000).map(|c| Ok(hyper::body::Frame::data(bytes::Bytes::copy_from_slice(c)))).collect();
+            BodyExt::boxed(http_body_util::StreamBody::new(futures::stream::iter(frames)))
+        };
+        let mut rb = http::Request::builder().method(method).uri(format!("http://localhost{}", target));
+        for (n, v) in headers {
+            if n.eq_ignore_ascii_case("connection") {
+                continue; // connection-specific headers do not exist in HTTP/2
+            }
+            rb = rb.header(*n, *v);
+        }
+        let req = rb.body(b).ok()?;
+        sender.ready().await.ok()?;
+        let rsp = tokio::time::timeout(Duration::from_secs(20), sender.send_request(req)).await.ok()?.ok()?;
+        let mut raw = RawResponse::default();
+        raw.status = rsp.status().as_u16();
+        for (n, v) in rsp.headers() {
+            raw.headers.push((n.as_str().to_string(), String::from_utf8_lossy(v.as_bytes()).trim().to_string()));
+        }
+        raw.body = tokio::time::timeout(Duration::from_secs(20), rsp.into_body().collect()).await.ok()?.ok()?.to_bytes().to_vec();
+        raw.well_formed = true;
+        conn_task.abort();
+        Some(raw)
+    })
+}
+
 /// Build a simple request with a Content-Length body.
 pub fn build_request(method: &str, target: &str, headers: &[(&str, &str)], body: &[u8]) -> Vec<u8> {
     let mut v = format!("{} {} HTTP/1.1\r\nhost: localhost\r\n", method, target).into_bytes();
